@@ -9,7 +9,7 @@ INV = ["Coherent", "UpdateOK"]
 
 def run(tier, argv):
     chk = Check("C03", tier)
-    plans = [("a", ["f2", "fs", "fd"], "all", 2), ("b", ["fa", "fvf", "fc", "fn3"], "few", 1)]
+    plans = [("a", ["f2", "fs", "fd"], "all", 2), ("b", ["fa", "fvf", "fc", "fn3", "fb"], "few", 1)]
     if tier != "quick":
         plans = [("a", ["f2", "fs", "fd", "fa", "fc"], "all", 2), ("b", ["fvf", "fn3", "fv", "fr", "fsc", "cTF", "fvs"], "few", 2)]
     for tag, progs, sims, maxc in plans:
